@@ -18,6 +18,18 @@ pub struct BodyCase {
     pub shape: String,
 }
 
+thread_local! {
+    /// run the cases with the segmented data type `Rope` instead of `Bytes`
+    static USE_ROPE: std::cell::Cell<bool> = const { std::cell::Cell::new(false) };
+}
+
+/// Runs `f` with every `run_case` using an entity whose `Data` is a multi-segment `Buf`.
+pub fn with_rope(f: impl FnOnce()) {
+    USE_ROPE.with(|r| r.set(true));
+    f();
+    USE_ROPE.with(|r| r.set(false));
+}
+
 /// All ways to cut `bytes` into 1..=max_chunks non-empty chunks.
 pub fn compositions(bytes: &[u8], max_chunks: usize) -> Vec<Vec<Vec<u8>>> {
     fn go(rest: &[u8], left: usize, cur: &mut Vec<Vec<u8>>, out: &mut Vec<Vec<Vec<u8>>>) {
@@ -204,7 +216,8 @@ pub struct Ran {
 /// Runs a case against the real code and emits the SERVE-independent `BODY` line.
 pub fn run_case(em: &mut Emit, c: &BodyCase, predf: &dyn Fn(&BodyCase, &Ran) -> String) {
     let o = observe_serve(&c.q, &c.e);
-    let ran = match run_body(&c.q, &c.e, &c.scripts, c.polls) {
+    let rope = USE_ROPE.with(|r| r.get());
+    let ran = match if rope { run_body_rope(&c.q, &c.e, &c.scripts, c.polls) } else { run_body(&c.q, &c.e, &c.scripts, c.polls) } {
         Some((recs, calls)) => Ran { o, recs, calls },
         None => {
             em.case(
@@ -238,7 +251,7 @@ pub fn run_case(em: &mut Emit, c: &BodyCase, predf: &dyn Fn(&BodyCase, &Ran) -> 
             _ => "e?",
         })
         .unwrap_or("none");
-    let class = format!("{}:{}:{}", c.shape, status_class(&ran.o), outcome);
+    let class = format!("{}{}:{}:{}", if rope { "rope:" } else { "" }, c.shape, status_class(&ran.o), outcome);
     match &ran.o.plan {
         Plan::MultipartHead(..) | Plan::Unknown(_) => {
             // body too large to model chunk by chunk: only the head is compared
@@ -750,6 +763,96 @@ fn thin(i: usize, k: u64) -> bool {
     (z ^ (z >> 31)) % k == 0
 }
 
+/// Multipart bodies with very many parts (`k` two-byte ranges of a large entity), honest, and with
+/// an entity error in one part; polled well past the end.
+pub fn many_parts_cases() -> Vec<BodyCase> {
+    let mut v = vec![];
+    for k in [255usize, 256, 257, 300] {
+        let len = 1u64 << 20;
+        let mut q = HReq::get();
+        q.range = Some(crate::suites_serve::many_ranges(k, len));
+        let e = ent(len);
+        let o = observe_serve(&q, &e);
+        let rs = ranges_of(&o);
+        for fault_at in [None, Some(0usize), Some(k / 2), Some(k - 1)] {
+            let scripts: Vec<Vec<Ev>> = rs
+                .iter()
+                .enumerate()
+                .map(|(j, &(a, b))| if Some(j) == fault_at { vec![Ev::Chunk(content(a..a + 1)), Ev::Err] } else { vec![Ev::Chunk(content(a..b))] })
+                .collect();
+            v.push(BodyCase {
+                q: q.clone(),
+                e: e.clone(),
+                polls: 3 * k + 12,
+                scripts,
+                honest: fault_at.is_none(),
+                shape: format!("mp{}:{}", k, if fault_at.is_some() { "err" } else { "honest" }),
+            });
+        }
+    }
+    v
+}
+
+/// Two faults in one multipart body that cancel out in the total: one part's stream `k` bytes
+/// short, another's `k` bytes long (either order). Each part has its own length to honour.
+pub fn compensating_fault_cases() -> Vec<BodyCase> {
+    let mut v = vec![];
+    for (name, len, range) in shapes() {
+        let mut q = HReq::get();
+        q.range = range.clone();
+        let e = ent(len);
+        let o = observe_serve(&q, &e);
+        let rs = ranges_of(&o);
+        if rs.len() < 2 {
+            continue;
+        }
+        for i in 0..rs.len() {
+            for j in 0..rs.len() {
+                if i == j {
+                    continue;
+                }
+                for k in [1u64, 2] {
+                    if rs[i].1 - rs[i].0 <= k {
+                        continue;
+                    }
+                    for split in [false, true] {
+                        let scripts: Vec<Vec<Ev>> = rs
+                            .iter()
+                            .enumerate()
+                            .map(|(x, &(a, b))| {
+                                if x == i {
+                                    // k bytes short
+                                    vec![Ev::Chunk(content(a..b - k))]
+                                } else if x == j {
+                                    // k bytes long: in the last chunk, or as a chunk of its own
+                                    let mut extra = content(a..b);
+                                    if split {
+                                        vec![Ev::Chunk(extra), Ev::Chunk(vec![0xEE; k as usize])]
+                                    } else {
+                                        extra.extend(std::iter::repeat(0xEE).take(k as usize));
+                                        vec![Ev::Chunk(extra)]
+                                    }
+                                } else {
+                                    vec![Ev::Chunk(content(a..b))]
+                                }
+                            })
+                            .collect();
+                        v.push(BodyCase {
+                            q: q.clone(),
+                            e: e.clone(),
+                            polls: 4 * rs.len() + 8,
+                            scripts,
+                            honest: false,
+                            shape: format!("{}:short{}:long{}:compensating", name, i, j),
+                        });
+                    }
+                }
+            }
+        }
+    }
+    v
+}
+
 /// Cuts every script after its first error: a stream that stays failed once it has failed (the
 /// proviso of C20, and the "failing stream" of C07).
 pub fn stay_failed(scripts: &mut [Vec<Ev>]) {
@@ -922,6 +1025,19 @@ pub fn c01(em: &mut Emit, thorough: bool, seed: u64) {
     }
     // multipart bodies around 2^64 bytes: the announced length is the layout's, or the answer is 413
     c06_huge(em, &mut rng, if thorough { 5_000 } else { 500 });
+    for c in many_parts_cases() {
+        run_case(em, &c, &pred_c01);
+    }
+    // the same with an entity whose data type is a multi-segment `Buf`
+    with_rope(|| {
+        let mut rng = Rng::new(seed ^ 0xC01 ^ 0x505e);
+        for c in honest_cases(&mut rng, false).into_iter().enumerate().filter(|(i, _)| thin(*i, 6)).map(|(_, c)| c) {
+            run_case(em, &c, &pred_c01);
+        }
+        for c in fault_cases(&mut rng, false).into_iter().enumerate().filter(|(i, _)| thin(*i, 6)).map(|(_, c)| c) {
+            run_case(em, &c, &pred_c01);
+        }
+    });
     // the response head: Content-Length against the model for astronomically large entities
     for len in [0u64, 1, 65535, 65536, 1 << 32, 1 << 63, u64::MAX] {
         for range in [None, Some(&b"bytes=0-"[..]), Some(b"bytes=1-"), Some(b"bytes=-1")] {
@@ -971,6 +1087,28 @@ pub fn c02(em: &mut Emit, thorough: bool, seed: u64) {
     }
     for c in honest_cases(&mut rng, thorough) {
         run_case(em, &c, &pred_c02);
+    }
+    // an entity whose length changes while it is served (every `len()` after the first answers
+    // differently): the response is about ONE length, the first one reported
+    for (first, later) in [(1000u64, 600u64), (1000, 1200), (1000, 0), (10, u64::MAX)] {
+        for range in [None, Some(&b"bytes=900-949"[..]), Some(b"bytes=990-"), Some(b"bytes=-7"), Some(b"bytes=0-0,5-5"), Some(b"bytes=5000-")] {
+            if first < 1000 && range.is_some() && range != Some(b"bytes=-7") {
+                continue;
+            }
+            for method in ["GET", "HEAD"] {
+                let mut q = HReq::get();
+                q.method = method.into();
+                q.range = range.map(|r| r.to_vec());
+                let e = ent(first);
+                e.later_lens.lock().unwrap().push_back(later);
+                let scripts: Vec<Vec<Ev>> = ranges_of(&observe_serve(&q, &e))
+                    .iter()
+                    .map(|&(a, b)| if b >= a && b <= first { vec![Ev::Chunk(content(a..b))] } else { vec![] })
+                    .collect();
+                let c = BodyCase { q, e, scripts, polls: 12, honest: true, shape: format!("len-changes:{}:{}", first, later) };
+                run_case(em, &c, &pred_c02);
+            }
+        }
     }
     // the heads: Content-Range a-b/L with a <= b < L = len and exactly that range fetched
     let max_len = if thorough { 9 } else { 6 };
@@ -1210,6 +1348,18 @@ pub fn c07(em: &mut Emit, thorough: bool, seed: u64) {
     for c in fault_cases(&mut rng, thorough) {
         run_case(em, &c, &pred_c07);
     }
+    for c in compensating_fault_cases() {
+        run_case(em, &c, &pred_c07);
+    }
+    with_rope(|| {
+        let mut rng = Rng::new(seed ^ 0xC07 ^ 0x505e);
+        for c in fault_cases(&mut rng, false).into_iter().enumerate().filter(|(i, _)| thin(*i, 5)).map(|(_, c)| c) {
+            run_case(em, &c, &pred_c07);
+        }
+        for c in honest_cases(&mut rng, false).into_iter().enumerate().filter(|(i, _)| thin(*i, 12)).map(|(_, c)| c) {
+            run_case(em, &c, &pred_c07);
+        }
+    });
     // and the honest twin of every shape so that "fault => error" is not vacuous
     for c in honest_cases(&mut rng, false).into_iter().enumerate().filter(|(i, _)| thin(*i, 5)).map(|(_, c)| c) {
         run_case(em, &c, &pred_c07);
@@ -1222,6 +1372,27 @@ pub fn c07(em: &mut Emit, thorough: bool, seed: u64) {
 /// stays the end.
 pub fn conversion_bodies(em: &mut Emit) {
     let texts: [&'static str; 4] = ["", "x", "hello, world", "0123456789abcdef0123456789abcdef0123456789abcdef0123456789abcdef!"];
+    // with a data type that is not one contiguous slice: the hint is about all of it
+    for t in texts {
+        type RBody = http_serve::Body<Rope, BoxError>;
+        for (what, body) in [
+            ("&'static [u8]", RBody::from(t.as_bytes())),
+            ("&'static str", RBody::from(t)),
+            ("Vec<u8>", RBody::from(t.as_bytes().to_vec())),
+            ("String", RBody::from(t.to_string())),
+        ] {
+            let recs = drive_any(body, 4, false);
+            let first = &recs[0];
+            let got: Vec<u8> = recs.iter().filter_map(|r| if let Out::Data(d) = &r.out { Some(d.clone()) } else { None }).flatten().collect();
+            let ok = first.lower == t.len() as u64 && first.upper == Some(t.len() as u64) && got == t.as_bytes()
+                && recs.iter().any(|r| r.out == Out::End) && !recs.iter().any(|r| r.out == Out::Panic);
+            em.pred_only(
+                &format!("Body::<Rope>::from({}) of {} bytes", what, t.len()),
+                &pred(ok, || format!("initial hint ({}, {:?}), delivered {} bytes", first.lower, first.upper, got.len())),
+                "conversion-rope",
+            );
+        }
+    }
     for t in texts {
         let makers: Vec<(&str, SBody)> = vec![
             ("&'static [u8]", SBody::from(t.as_bytes())),
@@ -1280,6 +1451,9 @@ pub fn conversion_bodies(em: &mut Emit) {
 
 pub fn c12_serve(em: &mut Emit, thorough: bool, seed: u64) {
     conversion_bodies(em);
+    for c in many_parts_cases() {
+        run_case(em, &c, &pred_c12);
+    }
     let mut rng = Rng::new(seed ^ 0xC12);
     for c in honest_cases(&mut rng, thorough) {
         run_case(em, &c, &pred_c12);
@@ -1290,10 +1464,29 @@ pub fn c12_serve(em: &mut Emit, thorough: bool, seed: u64) {
     for c in transient_cases() {
         run_case(em, &c, &pred_c12);
     }
+    with_rope(|| {
+        let mut rng = Rng::new(seed ^ 0xC12 ^ 0x505e);
+        for c in honest_cases(&mut rng, false).into_iter().enumerate().filter(|(i, _)| thin(*i, 6)).map(|(_, c)| c) {
+            run_case(em, &c, &pred_c12);
+        }
+        // responses whose body is one of the crate's fixed texts
+        for (method, im) in [("POST", None), ("GET", Some(&b"\"nope\""[..])), ("GET", Some(&b"bad"[..]))] {
+            let mut q = HReq::get();
+            q.method = method.into();
+            q.if_match = im.map(|v| v.to_vec());
+            let mut e = ent(10);
+            e.etag = Some(b"\"t\"".to_vec());
+            let c = BodyCase { q, e, scripts: vec![], polls: 4, honest: true, shape: "fixed-text".into() };
+            run_case(em, &c, &pred_c12);
+        }
+    });
 }
 
 pub fn c20_serve(em: &mut Emit, thorough: bool, seed: u64) {
     conversion_bodies(em);
+    for c in many_parts_cases() {
+        run_case(em, &c, &pred_c20);
+    }
     let mut rng = Rng::new(seed ^ 0xC20);
     // corpus: F9
     {
